@@ -86,7 +86,7 @@ _V_RE = re.compile(r'<<\s*"V",\s*("[^"]*"|-?\d+),\s*"(\w+)",\s*(-?\d+),\s*"([^"]
 
 
 def validate(module, traces, tables=None, shards=None, timeout=1800, extra_env=None,
-             cfg_extra='', xmx='3g', name=None, with_tables=True):
+             cfg_extra='', xmx='1500m', name=None, with_tables=True):
     """Validate traces (list of dicts with unique 'id') against spec/<module>.tla.
 
     Returns (verdicts, stats): verdicts maps id -> (status, index, why), with
@@ -97,7 +97,7 @@ def validate(module, traces, tables=None, shards=None, timeout=1800, extra_env=N
         return {}, {'states': 0, 'distinct': 0, 'wall': 0.0, 'jvms': 0, 'cmds': []}
     n = len(traces)
     if shards is None:
-        shards = max(1, min(16, n // 40))
+        shards = max(1, min(int(os.environ.get('VERIF_SHARDS', '12')), n // 40))
     shards = max(1, min(shards, n))
     d = scratch(name or module)
     tfile = os.path.join(d, 'tables.json')
